@@ -115,6 +115,7 @@ package core
 
 //@ type Message.To
 //@   trusted
+//@   ensures result == as(msg_to(self), "*common.Address")
 //@   assigns nothing
 //@ type Message.Value
 //@   trusted
@@ -137,6 +138,7 @@ package core
 //@   ensures[C06] @pool err == nil ==> uint64(*st.gp) == old(uint64(*st.gp)) - usedGas
 //@   ensures[C06] @gaslimit err == nil ==> old(uint64(*st.gp)) >= msg_gas(st.msg)
 //@   ensures[C06] @failedflag err == nil ==> failed == vm_failed
+//@   ensures[C06] @nonceinc err == nil && as(msg_to(st.msg), "*common.Address") != nil ==> entry_nonces[msg_from(st.msg)] == old(nonces[msg_from(st.msg)]) + 1
 //@   nopanic[C06]
 
 // ---- evm.go ---------------------------------------------------------------------------------
